@@ -129,7 +129,9 @@ class CubicBezier(ArcLengthMixin, Segment):
         """
         ss = []
         if self.length < degree:
-            return [Line(self[0], self[3])]
+            chord = Line(self[0], self[3])
+            chord._orig = self
+            return [chord]
         samples = self.regularSample(self.length / degree)
         for i in range(1, len(samples)):
             line = Line(samples[i - 1], samples[i])
